@@ -19,6 +19,26 @@ Theorem C07_crash_during_merge :
 Proof. exact crash_during_merge. Qed.
 Print Assumptions C07_crash_during_merge.
 
+(* Merge begins by removing a left-over merge directory - possibly a FINISHED one that no Open has adopted yet.
+   It removes the finished-marker first and the directory afterwards: os.RemoveAll unlinks entry by entry in an
+   order the file system chooses, so a process that dies inside it leaves ANY subset of the entries.  Whatever
+   subset is gone, what is left carries no marker: it is a directory of the family C07_crash_during_merge
+   quantifies over (ignored by every later Open), and the data directory and its hint file are untouched. *)
+Theorem C07_interrupted_removal_of_a_merge_directory_is_ignored :
+  (forall d k order md, k_merge k = Some md ->
+     exists pre post, snd (db_merge d k order) = pre ++ [EvRemove MMarker; EvRemoveAllMerge; EvMkdirMerge] ++ post /\
+                      pre = snd (db_rotate d)) /\
+  (forall s, fs_marker (fs_apply s (EvRemove MMarker)) = None) /\
+  (forall s gone m, fs_marker s = None ->
+     match k_merge (fs_to_disk (fs_partial_rm s gone) m) with Some md => ignored md | None => True end) /\
+  (forall s gone m, k_data (fs_to_disk (fs_partial_rm s gone) m) = k_data (fs_to_disk s m) /\
+                    k_hint (fs_to_disk (fs_partial_rm s gone) m) = k_hint (fs_to_disk s m)).
+Proof.
+  split; [exact merge_removes_marker_first|]. split; [exact remove_marker_clears|].
+  split; [exact partial_removal_is_ignored|exact partial_removal_keeps_data].
+Qed.
+Print Assumptions C07_interrupted_removal_of_a_merge_directory_is_ignored.
+
 (* The process dies after Merge has written its marker (the merge is finished but not adopted),
    possibly many operations later: the image opens, adopts the merge, and holds exactly M. *)
 Theorem C07_crash_with_finished_merge :
